@@ -108,10 +108,17 @@ static pboolean visit (ppointer key, ppointer value, ppointer data) {
 	return stop_at != 0 && visits >= stop_at;
 }
 
+/* one-shot allocation failure (op `insf`): the next p_malloc of the library returns NULL */
+static int fail_next;
+static ppointer f_malloc (psize n) { if (fail_next) { fail_next = 0; return NULL; } return malloc (n); }
+static ppointer f_realloc (ppointer p, psize n) { return realloc (p, n); }
+static void f_free (ppointer p) { free (p); }
+
 int main (void) {
 	char line[256], op[16], a1[32], a2[32], a3[32];
 	int type = 0;
-	p_libsys_init ();
+	PMemVTable vt = { f_malloc, f_realloc, f_free };
+	p_libsys_init_full (&vt);
 	while (fgets (line, sizeof line, stdin)) {
 		a1[0] = a2[0] = a3[0] = 0;
 		int n = sscanf (line, "%15s %31s %31s %31s", op, a1, a2, a3);
@@ -152,6 +159,20 @@ int main (void) {
 			++next_id;
 			p_tree_insert (tree, k, v);
 			present[o] = 1;
+			printf ("n=%d d=[%s]\n", p_tree_get_nnodes (tree), dlog);
+		} else if (!strcmp (op, "insf") && n == 2) {
+			/* insert while the allocator is out of memory: a new key cannot be added (the tree must stay as it is, also in
+			 * its balance bookkeeping); an equal key needs no allocation and is replaced as usual */
+			int o = atoi (a1);
+			if (o < 1 || o >= MAXORD) { puts ("bad-op"); continue; }
+			KO *k = malloc (sizeof *k); VO *v = malloc (sizeof *v);
+			k->ord = o; k->id = next_id; k->magic = KMAGIC; v->id = next_id; v->magic = VMAGIC; ++next_id;
+			int was = present[o];
+			fail_next = 1;
+			p_tree_insert (tree, k, v);
+			fail_next = 0;
+			if (was) { if (plain || vonly) pk[npk++] = k; if (plain || konly) pvv[npv++] = v; }
+			else { free (k); free (v); }           /* never entered the tree: still the caller's */
 			printf ("n=%d d=[%s]\n", p_tree_get_nnodes (tree), dlog);
 		} else if (!strcmp (op, "rem") && n == 2) {
 			int o = atoi (a1);
